@@ -11,6 +11,8 @@ import GfaModel.Components
 import GfaModel.LinearPaths
 import GfaModel.MultiplyGraph
 import GfaModel.LineFmt
+import GfaModel.DocOrder
+import GfaModel.MergeGraph
 import GfaModel.Seq
 import GfaModel.Line
 import GfaModel.Levels
@@ -257,6 +259,8 @@ def pure? (cmd : String) (args : List (List Char)) : Option String :=
         | _ => none) with
       | some ms => (match Seq.spell ms with | some r => "ok " ++ str r | none => "gerr ValueError")
       | none => "bad-op")
+  | "doc.order", rts =>
+    some ("ok " ++ " ".intercalate (Doc.docOrder (rts.map str)))
   | "line.parse", [n, l] =>
     some (match natOf? n with
     | some n => (match Line.parseLine n l with
@@ -319,6 +323,14 @@ def step (d : DState) (cmd : String) (args : List (List Char)) : DState × Strin
   | "g.multiply", [sn, k, names] =>
     (match natOf? k with
      | some kk => gres d (G.multiply d.g (str sn) kk (if names.isEmpty then [] else (splitOnC ',' names).map str))
+     | none => (d, "bad-op"))
+  | "g.merge", [path, vl] =>
+    (match (splitOnC ',' path).mapM (fun e => G.parseEnd (str e)), natOf? vl with
+     | some p, some k => gres d (G.mergePath d.g p k)
+     | _, _ => (d, "bad-op"))
+  | "g.mergeall", [vl] =>
+    (match natOf? vl with
+     | some k => gres d (G.mergeAll d.g k)
      | none => (d, "bad-op"))
   | "g.lpaths", [] => (d, "ok " ++ ";".intercalate ((G.linearPaths d.g).map G.showPath))
   | "g.lpath", [s] =>
